@@ -35,7 +35,7 @@ fn solstices(y: i64) -> Vec<i64> {
   })
 }
 
-fn day_line(d: &SolarDay, first: bool, _p: Option<&SolarDay>) -> String {
+fn day_line(d: &SolarDay, first: bool, prev: Option<&SolarDay>) -> String {
   let (y, m, dd) = ymd(d);
   let j = jdn(d);
   let sol = solstices(y);
@@ -57,7 +57,22 @@ fn day_line(d: &SolarDay, first: bool, _p: Option<&SolarDay>) -> String {
   let ns2 = g(ld.as_ref().and_then(|s| catch_iso(|| s.get_nine_star().get_index() as i64)));
   let ph = g(ld.as_ref().and_then(|s| catch_iso(|| s.get_phase().get_index() as i64)));
   let mr = g(ld.as_ref().and_then(|s| catch_iso(|| s.get_minor_ren().get_index() as i64)));
-  Ev::new("d").b("s", first).i("y", y).i("m", m).i("d", dd).i("j", j).i("w", w).i("p", p).i("mp", mp).i("ly", ly).i("lm", lm).i("ld", ldd)
+  // third route for officer and path spirit: the previous day's lunar day, already asked for both (which fills its
+  // per-value memos), stepped by one; -2 = no previous day in this segment
+  let st: Vec<i64> = match prev {
+    None => vec![-2, -2],
+    Some(q) => {
+      use tyme4rs::tyme::Tyme as _;
+      let l = catch_iso(|| {
+        let l0 = q.get_lunar_day();
+        let _ = catch(|| l0.get_duty());
+        let _ = catch(|| l0.get_twelve_star());
+        l0.next(1)
+      });
+      vec![g(l.as_ref().and_then(|x| catch_iso(|| x.get_duty().get_index() as i64))), g(l.as_ref().and_then(|x| catch_iso(|| x.get_twelve_star().get_index() as i64)))]
+    }
+  };
+  Ev::new("d").b("s", first).i("y", y).i("m", m).i("d", dd).i("j", j).i("w", w).i("p", p).i("mp", mp).a("st", &st).i("ly", ly).i("lm", lm).i("ld", ldd)
     .a("duty", &[duty1, duty2]).a("tw", &[tw1, tw2]).a("ms", &[ms1, ms2]).i("six", six).a("ns", &[ns1, ns2]).i("ph", ph).i("mr", mr).a("sol", &sol).done()
 }
 
